@@ -33,7 +33,8 @@ CHECKS = {
              "reused, fan-out order global callback -> observers in registration order -> user-data cleanup, sessions gauge never under-counts and "
              "returns to zero. plain + tsan (quick), + asan (thorough). Held on the executions produced; each close origin must have been observed or the run is inconclusive.",
         note="Trusts the raw loopback peers and the kernel's TCP/UDP behaviour on loopback; 'seen' = returned by connect()/connectViaListener() or carried by an accept/connect callback; "
-             "UDP back-pressure close is unreachable on loopback (not required).",
+             "UDP back-pressure close is unreachable on loopback (not required). "
+             "One open known finding (a setReadMode flush already inside its delivery loop hands exactly one more chunk to the data callback after the close was reported; tcp and udp keys).",
         technique="runtime monitoring: online per-id state machine over callback/observer/cleanup events + stats conservation, under TSan/ASan"),
     "C03": dict(
         level="exploration",
